@@ -276,6 +276,16 @@ fn run_board(prop: Prop, tier: Tier) -> i32 {
         fams.push(json!({"family": sf.name(), "index_space": sf.len(), "legal_members": n, "flipped_members": n2, "secs": t0.elapsed().as_secs_f64()}));
     }
 
+    // CASTLE2: two enemy pieces in front of the castling king
+    if matches!(prop, Prop::C01 | Prop::C02 | Prop::C03 | Prop::C05 | Prop::C06) {
+        let t0 = Instant::now();
+        let fam = Castle2;
+        let sf = Strided(&fam, if tier == Tier::Quick { 5 } else { 1 });
+        let n = for_family(&sf, &|p| visit(&ctx, p));
+        let n2 = for_family(&Flipped(&sf), &|p| visit(&ctx, p));
+        fams.push(json!({"family": sf.name(), "index_space": sf.len(), "legal_members": n, "flipped_members": n2, "secs": t0.elapsed().as_secs_f64()}));
+    }
+
     // PROMO2: two pawns on the 7th, promotions of different pawns onto one square, one of them pinned
     if matches!(prop, Prop::C01 | Prop::C02 | Prop::C03 | Prop::C05 | Prop::C14) {
         let t0 = Instant::now();
